@@ -43,6 +43,16 @@ def read_all_ways(path, ways):
         yield way, raw, par
 
 
+def read_text(ctx, txt):
+    from pydl.pydlutils.yanny import yanny
+    path = os.path.join(ctx.scratch, 's.par')
+    with open(path, 'w', newline='') as fh:
+        fh.write(txt)
+    par = yanny(path)
+    os.remove(path)
+    return par
+
+
 def check_text(ctx, txt, canon, ways, what, extra):
     """Give one text to the real reader in several ways and compare with the spec's value."""
     path = os.path.join(ctx.scratch, 'r.par')
@@ -115,6 +125,7 @@ def run(ctx):
     canon = load_canon(ctx)
     groups = GROUPS_QUICK if ctx.quick else GROUPS_THOROUGH
     seen = set()
+    accepted = []
     for gname, cfg in groups:
         r = ctx.tlc('MC_YannyLayout.tla', cfg, dump=True, timeout=1500, label=cfg)
         complete = 0
@@ -132,6 +143,8 @@ def run(ctx):
             ctx.nontriv(hash(txt))
             ctx.validated()
             case = check_text(ctx, txt, cn, ways, 'rendering of %s (group %s)' % (st['id'], gname), {'doc': st['id'], 'group': gname})
+            if not case and complete % 40 == 1:
+                accepted.append((txt, cn))
             if complete % 700 == 1:
                 ctx.sample({'doc': st['id'], 'group': gname, 'text': txt})
             if case:
@@ -157,6 +170,8 @@ def run(ctx):
     ctx.cov['parts']['renderings_hostile'] = nh
     if not ctx.quick:
         simulate_all(ctx, canon, seen)
+    rng.shuffle(accepted)
+    Y.comparator_selftest(ctx, accepted, lambda t: read_text(ctx, t), 'renderings')
     recorded_direction(ctx, rng)
     ctx.exhaustive = False
 
